@@ -20,6 +20,7 @@ Supported statements
                                               body assigns (they must be defined before the loop)
   pass, docstrings, assert                 -> skipped
   for x in E: if C: <stmts>; return R      -> the same `find?`, the statements translated inside the `some` branch
+  for x in E: a = …; b = …; if C: … return R -> the same, the loop-local assignments as `let`s in the test and again in the `some` branch
   continue (inside an accumulating loop)   -> the current tuple of loop variables
   s.add(e) on a set-valued local           -> `let s := s ++ [e]` (sets are lists that are only ever asked `in`)
   X.append(e) / X.remove(e) / X.pop(i)     -> on an attribute declared `mutable` (e.g. `self.columns`): the attribute
@@ -43,6 +44,14 @@ several generators (`flatMap`); `any(...)` / `all(...)` over a generator; `next(
 with that key, an Optional) and `k in d`; attributes listed in `optlist_attrs` (Optional[List], e.g. a column's
 `aliases`): the value is `(x.a.getD [])`, `x.a is None` is `(x.a = none)`, truthiness is non-emptiness;
 `xs or ys` / `xs and ys` between two lists in value position (`if xs ≠ [] then xs else ys`).
+
+Round 3 (additive): `for i in range(len(E)): … E[i] …` is read as `for i, i_item in enumerate(E)` with `E[i]` replaced by
+`i_item` (refused when `E` is changed in the loop before a later `E[i]`, or changed at all in an accumulating loop);
+a nested helper `def h(a, b): return <expr>` / `h = lambda a, b: <expr>` is inlined at its calls (its free names are
+looked up at the call, as Python does; refused when a comprehension variable at the call site shadows one of them);
+`X = e` on an attribute declared `mutable` (`self.columns = [c for c in self.columns if …]`) re-binds its local; a dict
+local (comprehension, `{}`, `dict()`) also takes `d[k] = v` (the association list grows; `.get` reads the last entry)
+and gives `d.values()` / `d.keys()` / `list(d)`: the keys in order of first insertion, each with its last value.
 """
 import ast
 
@@ -67,6 +76,8 @@ class Expr:
         self.opty = set()                # locals holding an Optional value
         self.narrow = {}                 # python name -> Lean name of its payload inside `if x is not None`
         self.mutated = set()             # `mutable` attributes (unparse texts) changed so far on this path
+        self.helpers = {}                # nested `def h(params): return expr` / `h = lambda …`: name -> (params, expr, free names)
+        self.comp_bound = []             # names bound by the comprehensions / generator expressions being translated
 
     def typestate(self):
         return (set(self.bound), set(self.listy), set(self.sety), set(self.dicty), set(self.opty), dict(self.narrow), set(self.mutated))
@@ -113,6 +124,7 @@ class Expr:
         pat, names = self.pattern(g.target)
         saved = self.typestate()
         self.bound |= names
+        self.comp_bound.append(names)
         for nm in names:
             self.sety.discard(nm), self.dicty.discard(nm), self.opty.discard(nm), self.narrow.pop(nm, None)
         try:
@@ -125,6 +137,7 @@ class Expr:
                 return "((%s).map (fun %s => (%s, %s)))" % (src, pat, self.go(pair[0]), self.go(pair[1]))
             e = self.go(elt)
         finally:
+            self.comp_bound.pop()
             self.restore(saved)
         if isinstance(elt, ast.Name) and elt.id in names and isinstance(g.target, ast.Name):
             return "(%s)" % src
@@ -241,9 +254,14 @@ class Expr:
             return "(if %s then %s else %s)" % (self.cond(n.test), self.go(n.body), self.go(n.orelse))
         if isinstance(n, ast.Call) and not n.keywords:
             f = n.func
+            if isinstance(f, ast.Name) and f.id in self.helpers and f.id not in self.funcs:
+                return self.inline(f.id, n.args)
             if isinstance(f, ast.Name):
                 if f.id in self.funcs:
                     return "(%s %s)" % (self.funcs[f.id], " ".join(self.go(a) for a in n.args))
+                if f.id == "list" and len(n.args) == 1 and isinstance(n.args[0], ast.Name) and n.args[0].id in self.bound \
+                        and n.args[0].id in self.dicty:
+                    return "(((%s).map (fun kv => kv.1)).eraseDups)" % n.args[0].id
                 if f.id == "list" and len(n.args) == 1:
                     return self.go(n.args[0])
                 if f.id == "len" and len(n.args) == 1:
@@ -259,9 +277,11 @@ class Expr:
                     pat, names = self.pattern(g.target)
                     saved = self.typestate()
                     self.bound |= names
+                    self.comp_bound.append(names)
                     try:
                         body = self.cond(n.args[0].elt)
                     finally:
+                        self.comp_bound.pop()
                         self.restore(saved)
                     return "((%s).%s (fun %s => decide %s))" % (src, f.id, pat, body)
                 if f.id == "next" and len(n.args) == 2 and isinstance(n.args[1], ast.Constant) and n.args[1].value is None \
@@ -272,15 +292,25 @@ class Expr:
                     it = self.go(g.iter)
                     saved = self.typestate()
                     self.bound |= names
+                    self.comp_bound.append(names)
                     try:
                         test = "(%s)" % " ∧ ".join(self.cond(c) for c in g.ifs) if g.ifs else None
                         e = self.go(n.args[0].elt)
                     finally:
+                        self.comp_bound.pop()
                         self.restore(saved)
                     found = "((%s).find? (fun %s => decide %s))" % (it, pat, test) if test else "((%s).head?)" % it
                     if isinstance(n.args[0].elt, ast.Name) and n.args[0].elt.id in names:
                         return found
                     return "(%s.map (fun %s => %s))" % (found, pat, e)
+            if isinstance(f, ast.Attribute) and f.attr in ("values", "keys") and not n.args and isinstance(f.value, ast.Name) \
+                    and f.value.id in self.bound and f.value.id in self.dicty:
+                # a dict keeps its keys in order of *first* insertion, each with the value stored *last*
+                d = f.value.id
+                keys = "(((%s).map (fun kv => kv.1)).eraseDups)" % d
+                if f.attr == "keys":
+                    return keys
+                return "(%s.filterMap (fun k_ => (((%s).reverse).find? (fun kv => decide (kv.1 = k_))).map (fun kv => kv.2)))" % (keys, d)
             if isinstance(f, ast.Attribute) and f.attr == "get" and len(n.args) == 1 and isinstance(f.value, ast.Name) \
                     and f.value.id in self.bound and f.value.id in self.dicty:
                 # a dict built by a comprehension: later entries overwrite earlier ones
@@ -289,6 +319,46 @@ class Expr:
                 return "(%s %s%s)" % (self.methods[f.attr], self.go(f.value), "".join(" " + self.go(a) for a in n.args))
             raise Untranslatable("call %s" % key)
         raise Untranslatable("%s: %s" % (type(n).__name__, key))
+
+    def helper(self, name, params, expr):
+        """register `def name(params): return expr` (or `name = lambda params: expr`)"""
+        free = {n.id for n in ast.walk(expr) if isinstance(n, ast.Name) and isinstance(n.ctx, ast.Load)} - set(params)
+        if any(isinstance(n, (ast.Yield, ast.YieldFrom, ast.Await, ast.NamedExpr, ast.Lambda)) for n in ast.walk(expr)):
+            raise Untranslatable("helper %s: yield / await / := / lambda inside" % name)
+        if name in free:
+            raise Untranslatable("helper %s is recursive" % name)
+        self.helpers[name] = (list(params), expr, free, [set(x) for x in self.comp_bound])
+
+    def inline(self, name, args):
+        """a call of a registered helper: its body with the parameters standing for the arguments.  Free names of the
+        body are looked up *here*, which is what Python does (late binding) -- except that a comprehension variable is
+        not visible to the helper, so a call under a comprehension that rebinds one of them is refused."""
+        params, expr, free, comp_at_def = self.helpers[name]
+        if len(args) != len(params) or any(isinstance(a, ast.Starred) for a in args):
+            raise Untranslatable("call of helper %s with other than its %d positional arguments" % (name, len(params)))
+        for names in self.comp_bound[len(comp_at_def):]:
+            if names & free:
+                raise Untranslatable("helper %s: %s is rebound by a comprehension at the call" % (name, sorted(names & free)[0]))
+        terms = [self.go(a) for a in args]
+        saved, saved_helpers = self.typestate(), dict(self.helpers)
+        del self.helpers[name]
+        lets = []
+        try:
+            for p, a, t in zip(params, args, terms):
+                self.bound.add(p)
+                self.sety.discard(p), self.dicty.discard(p), self.opty.discard(p), self.listy.discard(p)
+                if isinstance(a, ast.Name) and t.isidentifier():
+                    self.narrow[p] = t
+                else:
+                    self.narrow[p] = "%s_%s" % (name, p)
+                    lets.append("let %s_%s := %s; " % (name, p, t))
+                if self.is_list(a):
+                    self.listy.add(p)
+            body = self.go(expr)
+        finally:
+            self.helpers = saved_helpers
+            self.restore(saved)
+        return "(%s%s)" % ("".join(lets), body)
 
     def pattern(self, target):
         """A loop / comprehension target as a Lean lambda pattern; returns (text, bound python names)."""
@@ -334,6 +404,10 @@ def _assigned(stmts, mutable=None):
                 for t in n.targets:
                     if isinstance(t, ast.Name):
                         add(t.id)
+                    elif isinstance(t, ast.Subscript) and isinstance(t.value, ast.Name):
+                        add(t.value.id)      # d[k] = v changes d
+                    elif ast.unparse(t) in (mutable or {}):
+                        pass                 # re-binding a `mutable` attribute: added below with the other changes to it
                     else:
                         raise Untranslatable("assignment target %s" % ast.unparse(t))
             elif isinstance(n, ast.AugAssign):
@@ -387,6 +461,33 @@ class Stmts:
             return key, "((%s).eraseIdx %s)" % (var, self.ex.go(c.args[0]))
         raise Untranslatable("mutation %s" % ast.unparse(s)[:60])
 
+    @staticmethod
+    def _helper_def(s):
+        """`def h(a, b): return <expr>` / `h = lambda a, b: <expr>` -> (name, params, expr); else None"""
+        def plain(a):
+            return not (a.vararg or a.kwarg or a.kwonlyargs or a.defaults or a.kw_defaults or getattr(a, "posonlyargs", None))
+        if isinstance(s, ast.FunctionDef) and not s.decorator_list and plain(s.args):
+            def expr_of(stmts):
+                """`if c: return a` … `return b` as the conditional expression it computes"""
+                stmts = [b for b in stmts if not (isinstance(b, ast.Expr) and isinstance(b.value, ast.Constant)) and not isinstance(b, ast.Pass)]
+                if not stmts:
+                    return ast.Constant(value=None)
+                b = stmts[0]
+                if isinstance(b, ast.Return):
+                    return b.value if b.value is not None else ast.Constant(value=None)
+                if isinstance(b, ast.If):
+                    x, y = expr_of(list(b.body) + stmts[1:]), expr_of(list(b.orelse) + stmts[1:])
+                    return None if x is None or y is None else ast.IfExp(test=b.test, body=x, orelse=y)
+                return None
+            e = expr_of(s.body)
+            if e is not None and not isinstance(e, ast.Constant):
+                return s.name, [a.arg for a in s.args.args], e
+            return None
+        if isinstance(s, ast.Assign) and len(s.targets) == 1 and isinstance(s.targets[0], ast.Name) and isinstance(s.value, ast.Lambda) \
+                and plain(s.value.args):
+            return s.targets[0].id, [a.arg for a in s.value.args.args], s.value.body
+        return None
+
     def block(self, stmts, k, depth=1):
         """Lean term for the statement list; `k` is the term for falling off its end."""
         pad = self.ind * depth
@@ -402,6 +503,14 @@ class Stmts:
             return self.block(rest, k, depth)
         if isinstance(s, ast.Return):
             return self.ret(s.value, ex)
+        hp = self._helper_def(s)
+        if hp is not None:
+            saved_helpers = dict(ex.helpers)
+            ex.helper(*hp)
+            try:
+                return self.block(rest, k, depth)
+            finally:
+                ex.helpers = saved_helpers
         if isinstance(s, ast.Continue) and self.loop_k:
             return self.loop_k[-1]
         m = self._mutation(s)
@@ -418,11 +527,31 @@ class Stmts:
             if self.raise_ is None:
                 raise Untranslatable("raise")
             return self.raise_(s, ex)
-        if isinstance(s, ast.Assign) and len(s.targets) == 1 and isinstance(s.targets[0], ast.Name):
+        if isinstance(s, ast.Assign) and len(s.targets) == 1 and ast.unparse(s.targets[0]) in self.mutable \
+                and self.mutable[ast.unparse(s.targets[0])] in ex.bound:
+            # X = e on a `mutable` attribute: its local is re-bound (the old list object is no longer the attribute)
+            key = ast.unparse(s.targets[0])
             v = ex.go(s.value)
+            saved = ex.typestate()
+            ex.mutated.add(key)
+            try:
+                body = self.block(rest, k, depth)
+            finally:
+                ex.restore(saved)
+            return "let %s := %s\n%s%s" % (self.mutable[key], v, pad, body)
+        if isinstance(s, ast.Assign) and len(s.targets) == 1 and isinstance(s.targets[0], ast.Subscript) \
+                and isinstance(s.targets[0].value, ast.Name) and s.targets[0].value.id in ex.bound and s.targets[0].value.id in ex.dicty \
+                and not isinstance(s.targets[0].slice, ast.Slice):
+            d = s.targets[0].value.id
+            return "let %s := (%s ++ [(%s, %s)])\n%s%s" % (d, d, ex.go(s.targets[0].slice), ex.go(s.value), pad, self.block(rest, k, depth))
+        if isinstance(s, ast.Assign) and len(s.targets) == 1 and isinstance(s.targets[0], ast.Name):
+            empty_dict = (isinstance(s.value, ast.Dict) and not s.value.keys) or (
+                isinstance(s.value, ast.Call) and isinstance(s.value.func, ast.Name) and s.value.func.id == "dict" and not s.value.args
+                and not s.value.keywords)
+            v = "[]" if empty_dict else ex.go(s.value)
             name = s.targets[0].id
             was_list = ex.is_list(s.value)
-            is_set, is_dict, is_opt = ex._is_set_expr(s.value), isinstance(s.value, ast.DictComp), ex.is_opt(s.value)
+            is_set, is_dict, is_opt = ex._is_set_expr(s.value), isinstance(s.value, ast.DictComp) or empty_dict, ex.is_opt(s.value)
             saved = ex.typestate()
             ex.bound.add(name)
             ex.listy.discard(name), ex.sety.discard(name), ex.dicty.discard(name), ex.opty.discard(name), ex.narrow.pop(name, None)
@@ -473,7 +602,7 @@ class Stmts:
                     ex.restore(saved)
 
             for br in (some_b, none_b):
-                late = [v for v in _assigned(list(br)) if v not in ex.bound and v not in self.mutable.values()]
+                late = [v for v in _assigned(list(br), self.mutable) if v not in ex.bound and v not in self.mutable.values()]
                 if late and rest:
                     raise Untranslatable("%s is first assigned inside `if %s is (not) None`" % (late[0], x))
             def ends(br):
@@ -500,9 +629,66 @@ class Stmts:
             return self.for_(s, rest, k, depth)
         raise Untranslatable("statement %s: %s" % (type(s).__name__, ast.unparse(s)[:60]))
 
+    def _range_len(self, s):
+        """`for i in range(len(E)): … E[i] …`  ->  `for i, i_item in enumerate(E): … i_item …` (None if not that shape)"""
+        it = s.iter
+        if not (isinstance(it, ast.Call) and isinstance(it.func, ast.Name) and it.func.id == "range" and len(it.args) == 1 and not it.keywords
+                and isinstance(it.args[0], ast.Call) and isinstance(it.args[0].func, ast.Name) and it.args[0].func.id == "len"
+                and len(it.args[0].args) == 1 and not it.args[0].keywords and isinstance(s.target, ast.Name)):
+            return None
+        E = it.args[0].args[0]
+        if not isinstance(E, (ast.Name, ast.Attribute)):
+            raise Untranslatable("range(len(%s))" % ast.unparse(E)[:40])
+        key, i = ast.unparse(E), s.target.id
+        item = i + "_item"
+        if any(isinstance(n, ast.Name) and n.id == item for b in s.body for n in ast.walk(b)) or item in self.ex.bound:
+            raise Untranslatable("%s is taken" % item)
+        for b in s.body:
+            for n in ast.walk(b):
+                if isinstance(n, (ast.Assign, ast.AugAssign, ast.For, ast.comprehension, ast.NamedExpr)):
+                    tg = n.targets if isinstance(n, ast.Assign) else [n.target]
+                    for t in tg:
+                        if any(isinstance(m, ast.Name) and m.id == i for m in ast.walk(t)) or ast.unparse(t) == key:
+                            raise Untranslatable("%s / %s is reassigned inside the loop" % (i, key))
+        # E changed in the loop: only ahead of a return (first-match shapes), and no E[i] may be read after the change
+        muts = [n for b in s.body for n in ast.walk(b)
+                if isinstance(n, ast.Call) and isinstance(n.func, ast.Attribute) and ast.unparse(n.func.value) == key
+                and n.func.attr not in ("index", "count", "copy")]
+        dels = [n for b in s.body for n in ast.walk(b) if isinstance(n, ast.Delete) or (
+            isinstance(n, (ast.Assign, ast.AugAssign)) and any(isinstance(t, ast.Subscript) and ast.unparse(t.value) == key
+                                                              for t in (n.targets if isinstance(n, ast.Assign) else [n.target])))]
+        if dels:
+            raise Untranslatable("%s is changed by del / item assignment inside the loop" % key)
+        uses = [n for b in s.body for n in ast.walk(b)
+                if isinstance(n, ast.Subscript) and ast.unparse(n.value) == key and isinstance(n.slice, ast.Name) and n.slice.id == i]
+        if muts:
+            body = [b for b in s.body if not (isinstance(b, ast.Expr) and isinstance(b.value, ast.Constant))]
+            first_match = len(body) == 1 and isinstance(body[0], ast.If) and not body[0].orelse and isinstance(body[0].body[-1], ast.Return)
+            if not first_match:
+                raise Untranslatable("%s is changed inside a loop over range(len(%s))" % (key, key))
+            end = min((m.end_lineno, m.end_col_offset) for m in muts)
+            if any((u.lineno, u.col_offset) >= end for u in uses):
+                raise Untranslatable("%s[%s] is read after %s was changed" % (key, i, key))
+
+        class Sub(ast.NodeTransformer):
+            def visit_Subscript(self, n):
+                if ast.unparse(n.value) == key and isinstance(n.slice, ast.Name) and n.slice.id == i and isinstance(n.ctx, ast.Load):
+                    return ast.copy_location(ast.Name(id=item, ctx=ast.Load()), n)
+                return self.generic_visit(n)
+
+        import copy
+        new = copy.deepcopy(s)
+        new.body = [Sub().visit(b) for b in new.body]
+        new.target = ast.Tuple(elts=[ast.Name(id=i, ctx=ast.Store()), ast.Name(id=item, ctx=ast.Store())], ctx=ast.Store())
+        new.iter = ast.Call(func=ast.Name(id="enumerate", ctx=ast.Load()), args=[E], keywords=[])
+        return new
+
     def for_(self, s, rest, k, depth):
         ex = self.ex
         pad = self.ind * depth
+        rl = self._range_len(s)
+        if rl is not None:
+            s = rl
         it = s.iter
         enum = isinstance(it, ast.Call) and isinstance(it.func, ast.Name) and it.func.id == "enumerate" and len(it.args) == 1
         if enum:
@@ -528,6 +714,42 @@ class Stmts:
             tail = self.block(rest, k, depth + 1)
             return ("match (%s).find? (fun %s => decide %s) with\n%s| some %s => %s\n%s| none =>\n%s%s%s"
                     % (src, pat, test, pad, pat, r, pad, pad, self.ind, tail))
+        # shape 1'': a few loop-local assignments, then `if C: … return R` (the names must not be read after the loop)
+        lets_ = []
+        while len(body) - len(lets_) > 1 and isinstance(body[len(lets_)], ast.Assign) and len(body[len(lets_)].targets) == 1 \
+                and isinstance(body[len(lets_)].targets[0], ast.Name) and not isinstance(body[len(lets_)].value, ast.Lambda):
+            lets_.append(body[len(lets_)])
+        last = body[len(lets_)] if len(body) - len(lets_) == 1 else None
+        if lets_ and isinstance(last, ast.If) and not last.orelse and isinstance(last.body[-1], ast.Return) \
+                and not _has(last.body, (ast.Break, ast.Continue, ast.For, ast.While)) \
+                and sum(isinstance(n, ast.Return) for b in last.body for n in ast.walk(b)) == 1:
+            local = [a.targets[0].id for a in lets_]
+            if any(isinstance(n, ast.Name) and n.id in local for r_ in rest for n in ast.walk(r_)) or set(local) & names:
+                raise Untranslatable("%s is assigned in the loop and used after it" % local[0])
+            saved = ex.typestate()
+            ex.bound |= names
+            try:
+                chain = []
+                for a in lets_:
+                    v = ex.go(a.value)
+                    nm = a.targets[0].id
+                    was_list = ex.is_list(a.value)
+                    if ex._is_set_expr(a.value) or isinstance(a.value, (ast.DictComp, ast.Dict)) or ex.is_opt(a.value):
+                        raise Untranslatable("loop-local %s holds a set / dict / Optional" % nm)
+                    ex.bound.add(nm)
+                    ex.listy.discard(nm), ex.sety.discard(nm), ex.dicty.discard(nm), ex.opty.discard(nm), ex.narrow.pop(nm, None)
+                    if was_list:
+                        ex.listy.add(nm)
+                    chain.append((nm, v))
+                test = ex.cond(last.test)
+                r = self.block(list(last.body), k, depth + 1)
+            finally:
+                ex.restore(saved)
+            tail = self.block(rest, k, depth + 1)
+            inline = "".join("let %s := %s; " % c for c in chain)
+            again = "".join("let %s := %s\n%s%s" % (c[0], c[1], pad, self.ind) for c in chain)
+            return ("match (%s).find? (fun %s => (%sdecide %s)) with\n%s| some %s =>\n%s%s%s%s\n%s| none =>\n%s%s%s"
+                    % (src, pat, inline, test, pad, pat, pad, self.ind, again, r, pad, pad, self.ind, tail))
         # shape 1': the first match runs a few statements and returns
         if len(body) == 1 and isinstance(body[0], ast.If) and not body[0].orelse and isinstance(body[0].body[-1], ast.Return) \
                 and not _has(body[0].body, (ast.Break, ast.Continue, ast.For, ast.While)) \
